@@ -330,27 +330,38 @@ def extra_checks(prop, tier, seed, workdir, drive, build=None):
             res["violations"] = [({"keys_log": keep, "lines": bad[:10]}, {"name": "keys"})]
         return res
     if prop == "C20":
-        files = []
-        for r in ("A", "B", "C"):
-            f = os.path.join(workdir, "det-%s.ndjson" % r)
-            drive(["random", "-seed", str(seed + 7), "-n", "6" if tier == "quick" else "40", "-steps", "120", "-out", f])
-            files.append((r, f))
+        # replica A = the traces just validated; replicas B, C = the same sources executed again by
+        # separate processes (scripted scenarios, the random histories, the replayed TLC behaviours)
+        tier_n, tier_steps = (14, 160) if tier == "quick" else (120, 300)
+        regen = {"s1.ndjson": ["scripted"],
+                 "s3.ndjson": ["random", "-seed", str(seed), "-n", str(tier_n), "-steps", str(tier_steps), "-genesis"],
+                 "s2.ndjson": ["replay", "-in", os.path.join(workdir, "s2-histories.json")]}
         merged = os.path.join(workdir, "replicas.ndjson")
-        n = 0
-        with open(merged, "w") as out:
-            for r, f in files:
-                for k, line in enumerate(open(f), 1):
+        from concurrent.futures import ThreadPoolExecutor
+        jobs = [(r, name, args) for r in ("B", "C") for name, args in regen.items()]
+        with ThreadPoolExecutor(max_workers=6) as ex:
+            list(ex.map(lambda j: drive(j[2] + ["-out", os.path.join(workdir, "det-%s-%s" % (j[0], j[1]))]), jobs))
+        logs = {}
+        for r in ("A", "B", "C"):
+            logs[r] = []
+            for name in regen:
+                src = os.path.join(workdir, name if r == "A" else "det-%s-%s" % (r, name))
+                for line in open(src):
                     d = json.loads(line)
-                    out.write(json.dumps({"r": r, "k": k, "op": d["ev"]["name"] + ("" if d["ev"]["ok"] else "/rejected"), "dg": d["dg"]}) + "\n")
-                    n += 1
+                    logs[r].append((d["ev"]["name"] + ("" if d["ev"]["ok"] else "/rejected"), d["dg"]))
+        n = max(len(v) for v in logs.values())
+        with open(merged, "w") as out:
+            for k in range(n):
+                get = lambda r, i: logs[r][k][i] if k < len(logs[r]) else "END"
+                out.write(json.dumps({"k": k + 1, "op": {r: get(r, 0) for r in logs}, "dg": {r: get(r, 1) for r in logs}}) + "\n")
         o = simple_tlc("Replicas", 'CONSTANTS\n  TraceFile = "%s"\nSPECIFICATION Spec\nINVARIANT Deterministic\nCHECK_DEADLOCK FALSE\n' % merged,
                        workdir, "replicas")
         m = re.search(r'<<"END", (\d+)>>', o)
-        if not m or int(m.group(1)) != n:
+        if "is violated" not in o and (not m or int(m.group(1)) != n):
             raise RuntimeError("Replicas did not consume the merged log:\n" + o[-3000:])
-        res = {"evaluations": n, "distinct_nontrivial": 3,
-               "rule": "Determinism: the same seeded histories executed by three separate processes; TLC checks on the merged "
-                       "log that equal applied prefixes give equal digests of the raw store, balances and supply.",
+        res = {"evaluations": 3 * n, "distinct_nontrivial": 3,
+               "rule": "Determinism: every history of every source executed by three separate processes; TLC checks on the merged "
+                       "log (Replicas.tla) that equal applied prefixes give equal digests of the raw store, balances and supply.",
                "replicas": 3, "samples": [{"replica_log_lines": n}]}
         if "is violated" in o:
             keep = os.path.join(verif, "replays", "C20-replicas-%d.ndjson" % seed)
